@@ -83,6 +83,13 @@ VH_GROUP(jpeg)
     if (ctx.take()) { Seed s = make_seed<tag, gil::rgb8_image_t>("jpeg_rgb8_9x7", "jpg", 9, 7, info, 2); cut(s); seed_units<tag, gil::rgb8_image_t>(ctx, s, o, false); }
     if (ctx.take())
     {
+        // four components: the Adobe APP14 transform byte decides between CMYK and YCCK, which the scanline reader sizes its row buffer from
+        Seed s = make_seed<tag, gil::cmyk8_image_t>("jpeg_cmyk8_5x3", "jpg", 5, 3, info, 4); cut(s);
+        ++ctx.witness["jpeg_four_component_seed"];
+        seed_units<tag, gil::cmyk8_image_t>(ctx, s, o, false);
+    }
+    if (ctx.take())
+    {
         // data after EOI stays in the alphabet, as fixed bytes (the start of another stream) rather than whatever the writer's buffer held
         Seed s = make_seed<tag, gil::gray8_image_t>("jpeg_gray8_8x8_tail", "jpg", 8, 8, info, 1); cut(s);
         for (unsigned char c : {0xFF, 0xD8, 0xFF, 0xE0, 0x00, 0x10, 0x4A, 0x46, 0x49, 0x46, 0x00, 0xFF}) s.bytes.push_back(c);
